@@ -18,6 +18,8 @@ type c06 struct{}
 
 func init() { engine.Register(c06{}) }
 
+func (c06) PostGenerate(r *engine.Rand, sc *engine.Scenario) { chooseEnvConfig(r, sc) }
+
 func (c06) ID() string { return "C06" }
 
 func (c06) Budget(tier string) int {
